@@ -1,0 +1,12 @@
+//go:build verif
+
+package types
+
+// VerifHash exposes the internal hash of a value (verification hook; build tag verif).
+func VerifHash(v Value) uint64 { return v.hash() }
+
+// VerifDecimalRaw exposes the raw ten-thousandths of a decimal.
+func VerifDecimalRaw(d Decimal) int64 { return d.value }
+
+// VerifDecimalFromRaw builds a decimal from raw ten-thousandths.
+func VerifDecimalFromRaw(raw int64) Decimal { return Decimal{value: raw} }
